@@ -391,6 +391,26 @@ def _run_case(idx, c):
         state["armed"] = True
         if cls == "otherkey" or cls == "otherdata":
             pass
+        if cls == "replayed":
+            # first request: answered honestly (and remembered); second request: the client sends that flight again
+            flights = []
+            orig_send_msgs = p.c._sendMsgs
+
+            def _sendMsgs(msgs, *a, **kw):
+                msgs = list(msgs)
+                if not flights:
+                    flights.append(msgs)
+                else:
+                    state["hit"] += 1
+                    msgs = flights[0]
+                return orig_send_msgs(msgs, *a, **kw)
+            p.c._sendMsgs = _sendMsgs
+            p.op("s", p.s.request_post_handshake_auth(settings(minVersion=(3, 4), maxVersion=(3, 4))))
+            oc = p.op("c", _read_gen(p.c, None, 0))
+            o1 = p.op("s", _read_gen(p.s, None, 0))
+            if o1.exc is not None or p.s.session.clientCertChain is None:
+                return {"skip": "first post-handshake authentication did not complete: %s / %s %r" % (o1.describe(), oc.describe(), oc.exc), "case": c}
+            chain_before = p.s.session.clientCertChain
         o = p.op("s", p.s.request_post_handshake_auth(settings(minVersion=(3, 4), maxVersion=(3, 4))))
         p.op("c", _read_gen(p.c, None, 0))
         o2 = p.op("s", _read_gen(p.s, None, 0))
@@ -452,12 +472,15 @@ def run(tier):
             cases.append(dict(c, var=v))
     with Pool(16) as pool:
         outs = pool.map(run_case, list(enumerate(cases)), chunksize=4)
-    traces, metas = [], []
+    traces, metas, skipped = [], [], []
     for o in outs:
         if "crash" in o:
             rep.machinery_errors.append("case crashed %s: %s" % (o["case"], o["crash"][-500:]))
             continue
         if "skip" in o:
+            skipped.append("%s/%s/%s: %s" % (o["case"]["site"], o["case"]["cls"], o["case"]["kt"], o["skip"]))
+            if "did not complete" in o["skip"]:
+                rep.machinery_errors.append("case could not be set up: " + skipped[-1])
             continue
         traces.append(o["trace"])
         metas.append(o)
@@ -480,6 +503,7 @@ def run(tier):
     for t in traces[:2] + traces[-2:]:
         rep.sample({"case": {k: v for k, v in t[0].items() if k != "ev"}, "result": {k: v for k, v in t[1].items() if k != "ev"}})
     rep.notes["cases"] = len(cases)
+    rep.notes["skipped"] = skipped[:20]
     rep.notes["cases_where_corruption_did_not_reach_the_wire"] = nohit[:40]
     rep.exhaustive = True
     rep.notes["exhaustive_space"] = "all meaningful (site, class, key type, version, role) tuples of AuthProof.tla"
